@@ -55,7 +55,8 @@ def gen_cfg(rng):
     elif lk == "empty":
         dom["output_levels"] = []
         dom["full_output"] = bool(rng.random() < 0.5)
-    sol = dict(closure=closure, precision=str(rng.choice(PRECS)), footprint=bool(rng.random() < 0.6), analytic=False,
+    sol = dict(closure=closure, precision=str(rng.choice(PRECS)), footprint=bool(rng.random() < 0.6), analytic=bool(rng.random() < 0.25),    # the closed form with the top-level values, for ANY closure (the solver accepts it)
+              
                surface_flux_shape=str(rng.choice(SHAPES)))
     if rng.random() < 0.3:
         sol["src_loc"] = [float(xmax * rng.uniform(0.3, 0.7)), float(ymax * rng.uniform(0.3, 0.7))]
